@@ -107,7 +107,7 @@ def m_path_derive(c):
     return Str(text=f'{base}/{c.canon.split("::")[-1]}/{sk}')
 
 
-@model('std::fs::remove_file', 'fs::remove_file')
+@model('std::fs::remove_file', 'fs::remove_file', 'remove_file')
 def m_remove_file(c):
     k = path_key(c.st, c.args[0])
     if k in fs(c.st):
@@ -116,7 +116,7 @@ def m_remove_file(c):
     return io_err(ERRKIND['NotFound'])
 
 
-@model('std::fs::rename', 'fs::rename')
+@model('std::fs::rename', 'fs::rename', 'rename')
 def m_rename(c):
     a, b = path_key(c.st, c.args[0]), path_key(c.st, c.args[1])
     d = fs(c.st)
